@@ -238,7 +238,7 @@ func describeSpec(s *RunSpec) map[string]interface{} {
 	gran := []string{"stmt", "func", "op"}
 	sched := fmt.Sprintf("strategy=%s granularity=%s p=1/%d q=%d first=task %d gc_rate=%d prng=%d", strat[s.Sched.Strat%len(strat)], gran[s.Sched.Gran%len(gran)], s.Sched.P, s.Sched.Q, s.Sched.First, s.Sched.GCRate, s.Sched.Seed)
 	if s.Sched.ClockRate > 0 {
-		sched += fmt.Sprintf(" clock=jumps forward every ~%d yields (1 ms .. 31 days)", s.Sched.ClockRate)
+		sched += fmt.Sprintf(" clock=jumps forward every ~%d yields (1 ms .. 3 days)", s.Sched.ClockRate)
 	}
 	if s.Sched.StallHot {
 		sched += fmt.Sprintf(" stall=in front of shared-state statements, up to %d times", s.Sched.StallMax)
@@ -394,6 +394,6 @@ func (e *Evidence) simulatedTime() string {
 	if e.build == nil || e.build.Desc == nil || e.build.Desc.ClockReads == 0 {
 		return "n/a (no clock, timer or deadline exists in the system under test; progress is counted in logical steps)"
 	}
-	return fmt.Sprintf("%.0f simulated seconds over all runs (%d clock expressions of the tree read the simulated clock: a microsecond per yield plus seeded forward jumps of 1 ms .. 31 days; timers left on the real clock: %v)",
+	return fmt.Sprintf("%.0f simulated seconds over all runs (%d clock expressions of the tree read the simulated clock: a microsecond per yield plus seeded forward jumps of 1 ms .. 3 days; timers left on the real clock: %v)",
 		e.SimS, e.build.Desc.ClockReads, e.build.Desc.Timers)
 }
